@@ -81,10 +81,36 @@ def run_expr(expr: str, kind: str, ns: Dict[str, Any]) -> None:
         pass
 
 
+class Untypable:
+    """Ground-truth marker: type collection itself fails on this value (e.g. a self-referential list). The property cannot
+    say what the type of such a value is; a call that met one may stay unlogged, or be logged with Any at that position,
+    but it must leave no per-call state and must not be described by a trace that silently omits the position."""
+
+
+def typer_for(k: int) -> Callable[[Any], Any]:
+    from monkeytype.typing import get_type
+
+    def typer(v: Any) -> Any:
+        try:
+            return get_type(v, k)
+        except Exception:  # noqa: BLE001
+            return Untypable
+
+    return typer
+
+
+def untypable(r: Any) -> bool:
+    return any(t is Untypable for t in r.args.values()) or r.ret is Untypable or any(t is Untypable for t in r.yields)
+
+
+def _sub(t: Any) -> Any:
+    return typing.Any if t is Untypable else t
+
+
 def union_struct(types: List[Any]) -> Any:
     if not types:
         return None
-    return O.struct(typing.Union[tuple(types)])
+    return O.struct(typing.Union[tuple(_sub(t) for t in types)])
 
 
 def judge_op(res: Result, case: Dict[str, Any], rec: GT.Recorder, col: Collector, tracer: Any, n0: int, l0: int, may_codes: set, where: str) -> None:
@@ -115,16 +141,16 @@ def judge_op(res: Result, case: Dict[str, Any], rec: GT.Recorder, col: Collector
             res.violate(Violation(ID, "spurious-or-misattributed", sig_for(None), case, f"{where}: logged {lg!r} but no completed frame with that code at this point (completed: {[r.code.co_qualname for r in done]})"))
             return
         for skipped in done[pos:j]:
-            if id(skipped.code) not in may_codes:
+            if id(skipped.code) not in may_codes and not untypable(skipped):
                 res.violate(Violation(ID, "missing", sig_for(skipped), case, f"{where}: frame of {skipped.code.co_qualname} completed ({skipped.exit}) but no trace was logged for it"))
         r = done[j]
         pos = j + 1
-        exp_args = {n: O.struct(t) for n, t in r.args.items()}
+        exp_args = {n: O.struct(_sub(t)) for n, t in r.args.items()}
         got_args = {n: O.struct(t) for n, t in lg.arg_types.items()}
         if exp_args != got_args:
             res.violate(Violation(ID, "arg-types", sig_for(r), case, f"{where}: {r.code.co_qualname}: logged args { {n: O.show(t) for n, t in lg.arg_types.items()} }, at call start the named parameters were { {n: O.show(t) for n, t in r.args.items()} }"))
             return
-        exp_ret = None if r.exit == "unwind" else O.struct(r.ret)
+        exp_ret = None if r.exit == "unwind" else O.struct(_sub(r.ret))
         got_ret = None if lg.return_type is None else O.struct(lg.return_type)
         if exp_ret != got_ret:
             res.violate(Violation(ID, "return-type", sig_for(r), case, f"{where}: {r.code.co_qualname}: logged return {lg.return_type!r}, frame exit was {r.exit} with {r.ret!r}"))
@@ -136,7 +162,7 @@ def judge_op(res: Result, case: Dict[str, Any], rec: GT.Recorder, col: Collector
             return
     # everything completed after the last matched log must be MAY-log
     for r in done[pos:]:
-        if id(r.code) not in may_codes:
+        if id(r.code) not in may_codes and not untypable(r):
             res.violate(Violation(ID, "missing", sig_for(r), case, f"{where}: frame of {r.code.co_qualname} completed ({r.exit}) but no trace was logged for it"))
     # residue: the tracer keeps exactly the unfinished frames
     if tracer is not None:
@@ -222,7 +248,7 @@ def part_shapes(ctx: Ctx) -> Result:
         ns = {"M": M}
         for k in (0, 3):
             col = Collector()
-            rec = GT.Recorder(lambda code: code.co_filename in files, lambda v: get_type(v, k))
+            rec = GT.Recorder(lambda code: code.co_filename in files, typer_for(k))
             with rec:
                 with trace_calls(col, k, lambda code: code.co_filename in files):
                     tracer = sys.getprofile()
@@ -275,7 +301,7 @@ def part_nesting(ctx: Ctx) -> Result:
     for k in (0, 3):
         for order in ((0, 1), (1, 0)):
             col = Collector()
-            rec = GT.Recorder(lambda code: code.co_filename in files, lambda v: get_type(v, k))
+            rec = GT.Recorder(lambda code: code.co_filename in files, typer_for(k))
             with rec:
                 with trace_calls(col, k, lambda code: code.co_filename in files):
                     tracer = sys.getprofile()
@@ -333,6 +359,110 @@ def part_nesting(ctx: Ctx) -> Result:
     res.oblige("n:twin-code-objects-equal", mods[0].leaf.__code__ == mods[1].leaf.__code__ and mods[0].leaf.__code__ is not mods[1].leaf.__code__)
     for nm in names:
         del sys.modules[nm]
+    return res
+
+
+# ------------------------------------------------------------------------------------------ (u) untypable values
+
+UNT_SRC = '''
+def u_ok(a):
+    return a
+
+def u_arg(a):
+    return 1
+
+def u_arg_raise(a):
+    raise ValueError(1)
+
+def u_ret(a):
+    l = [a]
+    l.append(l)
+    return l
+
+def u_ret_dict(a):
+    d = {"k": a}
+    d["self"] = d
+    return d
+
+def u_ret_deep(a):
+    l = []
+    for _ in range(5000):
+        l = [l]
+    return l
+
+def u_caller(a):
+    u_ret(a)
+    return u_ok(a)
+
+def u_gen(a):
+    yield a
+    yield u_ret(a)
+    return u_ret(a)
+
+class KU:
+    def m(self, a):
+        return 1
+
+    @classmethod
+    def cm(cls, a):
+        return u_ret(a)
+
+    @staticmethod
+    def sm(a):
+        t = ([],)
+        t[0].append(t)
+        return t
+
+    @property
+    def p(self):
+        return u_ret_dict(1)
+'''
+CYC = "(lambda l: (l.append(l), l)[1])([])"
+UNT_CALLS = [
+    "M.u_ok(1)", f"M.u_arg({CYC})", "M.u_ok('s')", f"M.u_arg_raise({CYC})", "M.u_ret(1)", "M.u_ok(2.5)", "M.u_ret_dict(1)", "M.u_ret_deep(1)",
+    "M.u_caller(1)", "list(M.u_gen(1))", f"M.KU().m({CYC})", "M.KU.cm(1)", "M.KU.sm(1)", "M.KU().p", f"M.u_ok({CYC})", "M.u_ok(None)",
+]
+
+
+def part_untypable(ctx: Ctx) -> Result:
+    """Calls that meet a value on which type collection itself fails: every other call is logged as usual, the affected
+    call is either absent or logged with Any at that position, and no per-call state stays behind - in every order of the
+    scenario list (each rotation), for k in {0, 3}."""
+    from monkeytype.tracing import trace_calls
+
+    res = Result()
+    d = ctx.tmp / "c02_unt"
+    d.mkdir(exist_ok=True)
+    if str(d) not in sys.path:
+        sys.path.insert(0, str(d))
+    modname = f"c02u_{ctx.seed}"
+    (d / f"{modname}.py").write_text(UNT_SRC)
+    importlib.invalidate_caches()
+    M = importlib.import_module(modname)
+    files = {M.__file__}
+    may = may_code_ids(M)
+    met = False
+    for k in (0, 3):
+        for rot in range(len(UNT_CALLS)):
+            calls = UNT_CALLS[rot:] + UNT_CALLS[:rot]
+            col = Collector()
+            rec = GT.Recorder(lambda code: code.co_filename in files, typer_for(k))
+            with rec:
+                with trace_calls(col, k, lambda code: code.co_filename in files):
+                    tracer = sys.getprofile()
+                    for ci, expr in enumerate(calls):
+                        n0, l0 = len(rec.order), len(col.traces)
+                        try:
+                            eval(expr, {"M": M})
+                        except Exception:  # noqa: BLE001
+                            pass
+                        res.states += 1
+                        met = met or any(untypable(r) for r in rec.completed_since(n0))
+                        judge_op(res, {"part": "u", "k": k, "rot": rot, "call": ci}, rec, col, tracer, n0, l0, may, f"untypable-value scenario {expr} (after {calls[:ci][-2:]})")
+            if col.flushed != 1:
+                res.violate(Violation(ID, "flush", "flush-count", {"part": "u", "k": k, "rot": rot, "call": -1}, f"flush called {col.flushed} times"))
+    res.oblige("u:type-collection-really-failed", met)
+    del sys.modules[modname]
     return res
 
 
@@ -401,9 +531,25 @@ async def c_await(a):
     r = await Susp()
     r2 = await Susp()
     return [r, r2]
+
+def g_unt_yield(a):
+    yield a
+    l = [a]
+    l.append(l)
+    yield l
+    l = None
+    yield "x"
+    return 2.5
+
+def g_unt_arg(a):
+    a = 1
+    yield a
+    yield "x"
 '''
 
-TEMPLATES = [("g_plain", "2"), ("g_rebind", "5"), ("g_finally", "'f'"), ("g_except", "1"), ("g_from", "0"), ("g_raise", "'k'"), ("g_send", "None"), ("c_await", "1"), ("tc_yield", "1"), ("c_over_tc", "2")]
+TEMPLATES = [("g_plain", "2"), ("g_rebind", "5"), ("g_finally", "'f'"), ("g_except", "1"), ("g_from", "0"), ("g_raise", "'k'"), ("g_send", "None"), ("c_await", "1"), ("tc_yield", "1"), ("c_over_tc", "2"),
+             # values on which type collection itself fails (a self-referential list): yielded in mid-life / passed as the argument
+             ("g_unt_yield", "1"), ("g_unt_arg", "(lambda l: (l.append(l), l)[1])([])")]
 OPS = ["next", "send", "throw", "close", "drop"]
 
 
@@ -418,7 +564,7 @@ class Proto:
         from monkeytype.typing import get_type
 
         col = Collector()
-        rec = GT.Recorder(lambda code: code.co_filename in self.files, lambda v: get_type(v, self.k))
+        rec = GT.Recorder(lambda code: code.co_filename in self.files, typer_for(self.k))
         key = None
         with rec:
             with trace_calls(col, self.k, lambda code: code.co_filename in self.files):
@@ -464,7 +610,7 @@ class Proto:
             else:
                 s = inspect.getgeneratorstate(g)
                 st.append((s, g.gi_frame.f_lineno if g.gi_frame is not None else -1))
-        tr = sorted((t.func.__qualname__, tuple(sorted((n, repr(O.struct(x))) for n, x in t.arg_types.items())), repr(None if t.yield_type is None else O.struct(t.yield_type))) for t in tracer.traces.values())
+        tr = sorted(("<abandoned>", (), "") if t is None else (t.func.__qualname__, tuple(sorted((n, repr(O.struct(x))) for n, x in t.arg_types.items())), repr(None if t.yield_type is None else O.struct(t.yield_type))) for t in tracer.traces.values())
         cache = sorted(repr(k) for k in getattr(tracer, "cache", {}))
         return (tuple(st), tuple(tr), len(cache), len(col.traces))
 
@@ -542,10 +688,12 @@ def run(ctx: Ctx) -> Result:
     res = Result()
     res.merge(part_shapes(ctx))
     res.merge(part_nesting(ctx))
+    res.merge(part_untypable(ctx))
     res.merge(part_protocols(ctx))
     res.obligations.setdefault("b:two-frames-live-simultaneously", False)
     res.obligations.setdefault("n:twin-code-objects-equal", False)
     res.obligations.setdefault("n:two-sessions-with-reload", False)
+    res.obligations.setdefault("u:type-collection-really-failed", False)
     return res
 
 
@@ -564,6 +712,9 @@ def replay(case: Dict[str, Any], ctx: Ctx) -> List[Violation]:
         return res.violations
     if part == "n":
         return [v for v in part_nesting(ctx).violations]
+    if part == "u":
+        vs = part_untypable(ctx).violations
+        return [v for v in vs if (v.case.get("k"), v.case.get("rot"), v.case.get("call")) == (case.get("k"), case.get("rot"), case.get("call"))] or vs
     # part a: rerun the module of that kind/base and keep violations of the same call
     ctx.tier = case.get("tier", "quick")
     ls = shape_lists(ctx.tier, case["kind"])
@@ -589,7 +740,7 @@ def part_shapes_one(ctx: Ctx, kind: str, base: int, ls) -> Result:
     may = may_code_ids(M)
     for k in (0, 3):
         col = Collector()
-        rec = GT.Recorder(lambda code: code.co_filename in files, lambda v: get_type(v, k))
+        rec = GT.Recorder(lambda code: code.co_filename in files, typer_for(k))
         with rec:
             with trace_calls(col, k, lambda code: code.co_filename in files):
                 tracer = sys.getprofile()
